@@ -373,4 +373,34 @@ theorem zipWith_ext' (f g : Rat → Rat → Rat) (x v : List Rat) (h : ∀ a b, 
   rw [this]
 
 
+/-! ### df-weighted fixed-effects variance -/
+
+theorem sum_map_mul_left (c : Rat) (l : List Rat) : (l.map (c * ·)).sum = c * l.sum := by
+  induction l with
+  | nil => simp
+  | cons a as ih => simp only [List.map_cons, List.sum_cons, ih]; ring
+
+theorem sum_zipWith_scale (c : Rat) : ∀ (d s : List Rat),
+    (List.zipWith (· * ·) (d.map (c * ·)) s).sum = c * (List.zipWith (· * ·) d s).sum := by
+  intro d
+  induction d with
+  | nil => intro s; simp
+  | cons a as ih =>
+      intro s
+      cases s with
+      | nil => simp
+      | cons b bs => simp only [List.map_cons, List.zipWith_cons_cons, List.sum_cons, ih bs]; ring
+
+theorem sum_zipWith_replicate_one : ∀ (s : List Rat),
+    (List.zipWith (· * ·) (List.replicate s.length (1 : Rat)) s).sum = s.sum := by
+  intro s
+  induction s with
+  | nil => simp
+  | cons b bs ih => simp only [List.length_cons, List.replicate_succ, List.zipWith_cons_cons, List.sum_cons, ih]; ring
+
+theorem sum_replicate_one (n : Nat) : (List.replicate n (1 : Rat)).sum = n := by
+  induction n with
+  | zero => simp
+  | succ n ih => simp only [List.replicate_succ, List.sum_cons, ih]; push_cast; ring
+
 end NipyVerif.C17
